@@ -63,6 +63,73 @@ thread_local! {
     pub static TRANSCRIPT: RefCell<Vec<String>> = const { RefCell::new(Vec::new()) };
 }
 
+/// Structural, address-free, sharing-insensitive encoding of a value:
+/// `None` `True` `False` `i<decimal>` `f<repr>` JSON string literal `[a,b]` `(a,b)` `{k:v,k:v}` `set(a,b)`,
+/// anything else `<type:repr>`; `...` below depth 24 (cycles).
+pub fn enc(v: Value) -> String {
+    let mut s = String::new();
+    enc_into(v, 0, &mut s);
+    s
+}
+
+fn enc_into(v: Value, depth: usize, out: &mut String) {
+    use starlark::values::dict::DictRef;
+    use starlark::values::list::ListRef;
+    use starlark::values::tuple::TupleRef;
+    if depth > 24 {
+        out.push_str("...");
+        return;
+    }
+    if v.is_none() {
+        out.push_str("None");
+    } else if let Some(b) = v.unpack_bool() {
+        out.push_str(if b { "True" } else { "False" });
+    } else if starlark::verif_hooks::int_repr(v).is_some() {
+        out.push('i');
+        out.push_str(&v.to_str());
+    } else if let Some(s) = v.unpack_str() {
+        out.push_str(&serde_json::to_string(s).unwrap());
+    } else if let Some(l) = ListRef::from_value(v) {
+        out.push('[');
+        for (i, x) in l.iter().enumerate() {
+            if i > 0 {
+                out.push(',');
+            }
+            enc_into(x, depth + 1, out);
+        }
+        out.push(']');
+    } else if let Some(t) = TupleRef::from_value(v) {
+        out.push('(');
+        for (i, x) in t.iter().enumerate() {
+            if i > 0 {
+                out.push(',');
+            }
+            enc_into(x, depth + 1, out);
+        }
+        out.push(')');
+    } else if let Some(d) = DictRef::from_value(v) {
+        out.push('{');
+        for (i, (k, x)) in d.iter().enumerate() {
+            if i > 0 {
+                out.push(',');
+            }
+            enc_into(k, depth + 1, out);
+            out.push(':');
+            enc_into(x, depth + 1, out);
+        }
+        out.push('}');
+    } else if v.get_type() == "float" {
+        out.push('f');
+        out.push_str(&v.to_repr());
+    } else {
+        out.push('<');
+        out.push_str(v.get_type());
+        out.push(':');
+        out.push_str(&v.to_repr());
+        out.push('>');
+    }
+}
+
 /// Canonical, address-free encoding of a value: `type:repr`.
 pub fn canon(v: Value) -> String {
     format!("{}:{}", v.get_type(), v.to_repr())
@@ -72,7 +139,7 @@ pub fn canon(v: Value) -> String {
 pub fn harness_globals(builder: &mut GlobalsBuilder) {
     /// Record a value in the transcript.
     fn emit<'v>(#[starlark(require = pos)] x: Value<'v>) -> anyhow::Result<NoneType> {
-        let s = canon(x);
+        let s = enc(x);
         TRANSCRIPT.with(|t| t.borrow_mut().push(s));
         Ok(NoneType)
     }
